@@ -275,6 +275,9 @@ def h_precedence(sx):
             lines += l
             args += a
             exps[o["dest"]] = e
+        if args and args[0].startswith("-") and sx.bool("bare_color_first"):
+            # a value-less --color directly in front of the other options must not swallow them
+            args = ["--color"] + args
         _fresh_class_state()
         base = _snapshot(_build(tmp, home, None, []), dests)
         try:
